@@ -384,6 +384,14 @@ def oracle_c18(case):
         if ct.dump_circuit(whole) != ct.dump_circuit(cur):
             if not (whole == cur):
                 return f'pipeline {ts} differs from applying its passes one after another'
+        # the list of passes may be ANY iterable (annotated tp.Iterable[Transformer]): a generator, a tuple
+        try:
+            lazy = Transformer.apply_transformers(ct.build_circuit(dump), (build(t) for t in ts))
+            tup = Transformer.apply_transformers(ct.build_circuit(dump), tuple(build(t) for t in ts))
+        except Exception as e:  # noqa: BLE001
+            return f'pipeline given as a generator / tuple raises {type(e).__name__}: {e}'
+        if not (lazy == whole) or not (tup == whole):
+            return f'pipeline {ts} given as a generator / tuple differs from the same passes given as a list'
         if ts:
             piped = build(ts[0])
             for t in ts[1:]:
